@@ -83,10 +83,12 @@ theorem c02_translated_conditions :
     (∀ f pos, remaining f pos = FactsFn.remaining f.len pos f.offset) :=
   ⟨tie_curtails, tie_seqResets, tie_remaining⟩
 
-theorem c02_facts :
-    Facts.seqResetBody = "{leftRecCtx=data.EmptyIntMapmergeCurtailingParsers=false}" ∧
-    Facts.memoizeCallOrder = "ResultCache().Get;data.NewIntSet;p.Parse;leftRecCtx.Inc;leftRecCtx.Filter;ResultCache().Save" :=
-  ⟨rfl, rfl⟩
+/- (the text facts that stood here - condition lists and statement orders of Memoize, ResultCache, Any, Choice, the Sequence
+   machinery, ReturnError, SetError, Parse, re-read from the source as normalised text - are subsumed since translator v3: the
+   functions themselves are translated from the source on every run and the model is PROVED to agree with the translation
+   (Props/C01P.lean, built and audited by this property's check).  Unlike a text comparison, that tie is not broken by an
+   equivalent rewrite of the source.) -/
+theorem c02_facts : Facts.curtailSlack = 1 := rfl
 
 /-
   **C02 termination — the statement as first written; proved (per call, not with a uniform F) as `c02_terminates` in Props/C02T.lean:**
